@@ -230,26 +230,26 @@ impl ArcExpression {
             Greater(lhs, rhs) => {
                 let lhs = lhs.eval(binding, config, graph_matcher)?;
                 let rhs = rhs.eval(binding, config, graph_matcher)?;
-                lhs.sparql_cmp(&rhs)
-                    .map(|ord| EvalResult::from(ord.is_gt()))
+                lhs.sparql_cmp_with(&rhs, Ordering::is_gt)
+                    .map(EvalResult::from)
             }
             GreaterOrEqual(lhs, rhs) => {
                 let lhs = lhs.eval(binding, config, graph_matcher)?;
                 let rhs = rhs.eval(binding, config, graph_matcher)?;
-                lhs.sparql_cmp(&rhs)
-                    .map(|ord| EvalResult::from(ord.is_ge()))
+                lhs.sparql_cmp_with(&rhs, Ordering::is_ge)
+                    .map(EvalResult::from)
             }
             Less(lhs, rhs) => {
                 let lhs = lhs.eval(binding, config, graph_matcher)?;
                 let rhs = rhs.eval(binding, config, graph_matcher)?;
-                lhs.sparql_cmp(&rhs)
-                    .map(|ord| EvalResult::from(ord.is_lt()))
+                lhs.sparql_cmp_with(&rhs, Ordering::is_lt)
+                    .map(EvalResult::from)
             }
             LessOrEqual(lhs, rhs) => {
                 let lhs = lhs.eval(binding, config, graph_matcher)?;
                 let rhs = rhs.eval(binding, config, graph_matcher)?;
-                lhs.sparql_cmp(&rhs)
-                    .map(|ord| EvalResult::from(ord.is_le()))
+                lhs.sparql_cmp_with(&rhs, Ordering::is_le)
+                    .map(EvalResult::from)
             }
             In(lhs, rhs) => {
                 let lhs = lhs.eval(binding, config, graph_matcher)?;
@@ -458,6 +458,18 @@ impl EvalResult {
             } else {
                 None // distinct unrecognized literals can not be compared
             }
+        }
+    }
+
+    /// Evaluate one of the operators `<`, `>`, `<=`, `>=`.
+    ///
+    /// NB: op:numeric-less-than, op:numeric-greater-than and op:numeric-equal return false
+    /// (rather than raising an error) when an operand is NaN.
+    pub fn sparql_cmp_with(&self, other: &Self, pred: fn(Ordering) -> bool) -> Option<bool> {
+        if let (Some(n1), Some(n2)) = (self.as_number(), other.as_number()) {
+            Some(n1.partial_cmp(&n2).is_some_and(pred))
+        } else {
+            self.sparql_cmp(other).map(pred)
         }
     }
 
